@@ -969,14 +969,64 @@ def P25(m, R):
             p0 = h.params[0] if h.params else None
             return len(t_) == 1 and norm(t_[0].value) == 'int(%s)' % p0 and len(e_) == 1 and norm(e_[0].value) == p0
         return False
+    why = None
     if lp3 is not None:
-        apps = [x for x in ast.walk(lp3) if isinstance(x, ast.Call) and call_name(x) == 'append']
-        tr3 = next((n for n in lp3.body if isinstance(n, ast.Try)), None)
-        skips = [x for x in ast.walk(lp3) if isinstance(x, (ast.Continue, ast.Break))]
-        ok = not skips and len(apps) == 2 and tr3 is not None and norm(lp3.iter) == 'self._str.split(ansi_sep)' and \
-            len(tr3.handlers) == 1 and norm(tr3.handlers[0].type) == 'ValueError' and \
-            any(call_name(x) == 'append' for x in ast.walk(ast.Module(body=tr3.handlers[0].body, type_ignores=[])) if isinstance(x, ast.Call)) and \
-            any(call_name(x) == 'append' for x in ast.walk(ast.Module(body=tr3.orelse or tr3.body, type_ignores=[])) if isinstance(x, ast.Call))
+        # every path through one iteration appends exactly one value: int(<token>) when the conversion succeeds, the token text when
+        # it raises ValueError (paths over the CFG with its exception edges; names resolved along the path)
+        rets_ = [n for n in tl.walk() if isinstance(n, ast.Return)]
+        res = norm(rets_[-1].value) if rets_ else None
+        from ..inline import _subst as subst1
+        cfg3 = CFG(tl.node, tl.body)
+        head3 = cfg3.loop_of[lp3]
+        first3 = [nd for l, nd in head3.succ if l is True][0]
+        tok = norm(lp3.target)
+        try:
+            ps3 = paths(cfg3, first3, lambda nd: nd is head3, max_visits=1, limit=2000)
+        except PathExplosion:
+            ps3 = None
+        if ps3 is None or norm(lp3.iter) != 'self._str.split(ansi_sep)' or res is None:
+            ok = None
+        else:
+            ok = True
+            for pth, _e in ps3:
+                if pth[-1] is not head3:
+                    ok, why = False, 'an iteration can leave the loop (%s)' % pth[-1].text()
+                    break
+                defs = {}
+                appended = []
+                handled = False
+                for i_, nd in enumerate(pth):
+                    nxt = pth[i_ + 1] if i_ + 1 < len(pth) else None
+                    if nd.kind == 'except':
+                        handled = norm(nd.stmt.type) if nd.stmt.type is not None else 'all'
+                    if nd.kind != 'stmt':
+                        continue
+                    st_ = nd.stmt
+                    raises = nxt is not None and nxt.kind == 'except' and any(isinstance(x, ast.Call) and call_name(x) == 'int' for x in ast.walk(st_))
+                    if raises:
+                        continue            # the statement did not complete
+                    if isinstance(st_, ast.Assign) and len(st_.targets) == 1 and isinstance(st_.targets[0], ast.Name):
+                        defs[st_.targets[0].id] = subst1(st_.value, defs)
+                    elif isinstance(st_, ast.AnnAssign) and isinstance(st_.target, ast.Name) and st_.value is not None:
+                        defs[st_.target.id] = subst1(st_.value, defs)
+                    elif isinstance(st_, ast.Expr) and isinstance(st_.value, ast.Call) and call_name(st_.value) == 'append' and \
+                            norm(st_.value.func.value) == res and len(st_.value.args) == 1:
+                        appended.append(norm(subst1(st_.value.args[0], defs)))
+                texts = ('%s.strip()' % tok, tok)
+                if len(appended) != 1:
+                    ok, why = False, 'a token is appended %d times on the path %s' % (len(appended), 'through the ValueError handler' if handled else 'without exception')
+                    break
+                a_ = appended[0]
+                if handled:
+                    if handled not in ('ValueError',):
+                        ok, why = False, 'the conversion failure is caught as %s' % handled
+                        break
+                    if a_ not in texts:
+                        ok, why = False, 'a token that does not convert is kept as %s' % a_
+                        break
+                elif a_ not in tuple('int(%s)' % t_ for t_ in texts):
+                    ok, why = False, 'a token that converts is kept as %s' % a_
+                    break
     else:
         rets_ = [n for n in tl.walk() if isinstance(n, ast.Return)]
         if len(rets_) == 1 and isinstance(rets_[0].value, ast.ListComp) and len(rets_[0].value.generators) == 1:
@@ -989,7 +1039,7 @@ def P25(m, R):
     if ok is None:
         R.undecided(tl, tl.node, 'token conversion of to_list not recognised', construct='to_list tokens')
     else:
-        R.check(ok, tl, lp3 or tl.node, 'to_list keeps every ;-separated token once: as int when it converts, as text otherwise', construct='to_list tokens')
+        R.check(ok, tl, lp3 or tl.node, 'to_list keeps every ;-separated token once: as int when it converts, as text otherwise', why, construct='to_list tokens')
 
 
 # ----------------------------------------------------------------------------------------------------------------------
